@@ -86,14 +86,15 @@ inline int main_loop(int argc, char **argv, Spec &sp) {
   auto getcase = [&](long k) -> Case { return sp.lazy_get ? sp.lazy_get(mine_idx[k]) : all[mine_idx[k]]; };
   struct MineView { std::vector<size_t> *v; size_t size() const { return v->size(); } } mine{&mine_idx};
   std::set<std::string> classes;
+  std::vector<std::string> new_classes;
   std::map<std::string, long> outcomes;
   std::map<std::string, int> reported;
-  long evals = 0, nviol = 0, machinery_failures = 0;
+  long evals = 0, nviol = 0, machinery_failures = 0, emitted_evals = 0;
   size_t sample_every = mine.size() / 3 + 1;
   auto sink = [&](long k, const CaseResult &cr) {
     Case c = getcase(k);
     long sub = 1;
-    classes.insert(c.cls);
+    if (classes.insert(c.cls).second) new_classes.push_back(c.cls);
     std::string v;
     if (cr.died && !cr.sig && cr.exitcode >= 93 && cr.exitcode <= 99) { // a limit or internal error of the scheduler/harness itself (too many threads, mutexes, points, pipe failure): never a verdict
       machinery_failures++;
@@ -104,6 +105,12 @@ inline int main_loop(int argc, char **argv, Spec &sp) {
     else v = cr.obs;
     if (!v.empty() && v[0] == '#') { size_t e = v.find('#', 1); sub = atol(v.c_str() + 1); v = e == std::string::npos ? "" : v.substr(e + 1); } // "#n#rest": n evaluations inside this case
     evals += sub;
+    if (evals - emitted_evals >= 4000) { // progress records: a shard that is stopped at the check's deadline has still reported what it covered
+      J().s("t", "cov").n("evaluations", evals - emitted_evals).emit();
+      emitted_evals = evals;
+      J().s("t", "set").s("name", "classes").raw("items", jarrs(new_classes)).emit();
+      new_classes.clear();
+    }
     std::string okinfo;
     if (!v.empty() && v[0] == '+') { okinfo = v.substr(1); v.clear(); } // "+text": holds, with an annotation for samples/outcome histogram
     if (v.empty()) {
@@ -121,7 +128,7 @@ inline int main_loop(int argc, char **argv, Spec &sp) {
   run_batch((long)mine.size(), [&](long k) { return sp.run(getcase(k)); }, sink, sp.alarm_s, 5);
   bool capped = (size_t)(evals ? 1 : 0) && outcomes.size() && [&] { long seen = 0; for (auto &o : outcomes) seen += o.second; return seen < (long)mine.size(); }();
   std::vector<std::string> cl(classes.begin(), classes.end());
-  J().s("t", "cov").n("evaluations", evals).n("cases_total", (long)total).n("violating_cases", nviol).n("stopped_after_repeated_hangs", capped ? 1 : 0).emit();
+  J().s("t", "cov").n("evaluations", evals - emitted_evals).n("cases_total", (long)total).n("violating_cases", nviol).n("stopped_after_repeated_hangs", capped ? 1 : 0).emit();
   J().s("t", "flag").s("name", "machinery_ok").bo("value", machinery_failures == 0).emit();
   J().s("t", "set").s("name", "classes").raw("items", jarrs(cl)).emit();
   J().s("t", "hist").s("name", "outcomes").raw("counts", jmap(outcomes)).emit();
